@@ -94,7 +94,9 @@ def generate(g, tier):
             '0-', '-(1)', '!1', '!"a"', 'TRUE(1)', '((((((((((1))))))))))', '( 1 , 2 ) + 1', '(1,2)*2', '2*(1,2)', '(1,2)==(1,2)', '(1,2)<(1,3)', '"a"*3', '3*"a"', '"a"*"b"', 'TRUE+TRUE',
             'TRUE*2', '2*TRUE', '1/TRUE', '1/FALSE', '1%FALSE', '1//FALSE', '2^"a"', '"a"^2', '2^(1,2)', '0^0', '0^(0-1)', '(0-8)^0.5', '10^400', '10.0^400', '2^0.5',
             '1.5*10^308*1.5', '1.5*10^308*1.5 // 1', '1.5*10^308*1.5 % 2', '(1.5*10^308*1.5) - (1.5*10^308*1.5)', '0 * (1.5*10^308*1.5)', '1 / (1.5*10^308*1.5)', '(1.5*10^308*1.5) ^ 0', '(1.5*10^308*1.5) > 1',
-            '"x" + 1.5*10^308*1.5', '1.5*10^308*1.5 == 1.5*10^308*1.5', '(0 - 1.5*10^308*1.5) // 3', '2.5 // (1.5*10^308*1.5)', '7*10^5000', '(7*10^5000) > 1', '(7*10^5000) // 10^4990', '0.1 ^ 400', '5 % 0.1 ^ 400']
+            '"x" + 1.5*10^308*1.5', '1.5*10^308*1.5 == 1.5*10^308*1.5', '(0 - 1.5*10^308*1.5) // 3', '2.5 // (1.5*10^308*1.5)', '7*10^5000', '(7*10^5000) > 1', '(7*10^5000) // 10^4990', '0.1 ^ 400', '5 % 0.1 ^ 400',
+            # values that cannot be written out, INSIDE other values (a rejected argument is usually quoted in the message)
+            '10^5000,1', '1,7*10^5000', '(10^5000,1),2', '"a",10^5000', '10^5000,10^5000', '1.5*10^308*1.5,1', '(1,2),(3,10^5000)']
     CTX = ['$STRING {}', 'VAR v {}', 'IF {}\n    STRING a', 'ELIF {}\n    STRING a', 'WHILE {}\n    BREAKLOOP', 'WHILE i,{}\n    BREAKLOOP', 'REPEAT {}\n    STRING a',
            'REPEAT i,{}\n    STRING a', 'DELAY {}', '$ENTER {}', 'FUNC f a\n    STRING x\nRUN f {}', 'RETURN {}', '$PRINT {}', '$HOLD {}', 'WHITESPACE {}', '$GUI {}',
            'DEFAULT_DELAY {}', '$ALTCHAR {}']
@@ -109,7 +111,9 @@ def generate(g, tier):
                   'p.lib', '..p.lib', 'main', '\u65e5', '1', '0-1', 'TRUE', '(', ',', '1,2', 'lib lib', '\t', '\\', 'con', 'a' * 60 + '.' + 'b' * 60]:
             files = {'p/main.txt': f'{kw} {a}\nSTRING after', 'p/lib.txt': 'STRING lib'}
             cases.append(dict(op='compile_file', file='p/main.txt', files=files, meta=dict(family='start-args', nocorr=True)))
-    for t in ['VAR a 1,2\nVAR a a,a\n$STRING a', 'VAR a 1,2\nVAR a a,a\n$STRING a==a', 'VAR a 1,2\nVAR b a,3\n$STRING a==b', 'VAR a 1,2\nVAR a a,a\nIF a\n    STRING x',
+    for t in ['VAR big 10^5000\nDELAY big,1', 'VAR big 10^5000\n$ENTER big,big', 'VAR big 10^5000\nWHITESPACE 1,big', 'VAR big 7*10^5000\nFUNC f a\n    DELAY a\nRUN f (big,1)',
+              'VAR big 10^5000\nVAR l big,1\nDEFAULT_DELAY l', 'VAR big 10^5000\nVAR l 1,big\n$GUI l', 'VAR big 10^5000\nREPEAT big,1\n    STRING a', 'VAR big 10^5000\nRETURN big,1',
+              'VAR a 1,2\nVAR a a,a\n$STRING a', 'VAR a 1,2\nVAR a a,a\n$STRING a==a', 'VAR a 1,2\nVAR b a,3\n$STRING a==b', 'VAR a 1,2\nVAR a a,a\nIF a\n    STRING x',
               'VAR a 1,2\nREPEAT 5\n    VAR a a,a\n$STRING a', 'VAR a 1,2\nFUNC f p,q\n    $STRING p\nRUN f a,a', '$STRING (1,2),(1,2)', 'VAR a (1,2)\nVAR a a,a,a\n$PRINT a']:
         cases.append(dict(op='compile', src=dict(text=t), meta=dict(family='lists', nocorr=True)))
     # several stacks of one compilation that end through a top-level BREAKLOOP / CONTINUE / RETURN (the importer and imported
